@@ -14,7 +14,9 @@ H(n, v) == [n |-> n, v |-> v]
 \* ---------------------------------------------------------------- C14
 Methods  == {"GET", "HEAD", "POST", "PUT", "DELETE", "CONNECT", "OPTIONS", "TRACE", "PATCH"}
 Versions == {"HTTP/0.9", "HTTP/1.0", "HTTP/1.1", "HTTP/2.0"}
-Targets  == {"/", "/a/b.txt", "/p?x=1&y=2#f", "*", "example.com:443", "http://h/p?q", "/%41%20b"}
+Targets  == {"/", "/a/b.txt", "/p?x=1&y=2#f", "*", "example.com:443", "http://h/p?q", "/%41%20b",
+             \* non-ASCII targets, incl. letters whose upper / lower case has another byte length (dotless i, long s, ligatures, I with dot)
+             "/kırmızı", "/ılık", "/ﬁle/ſ", "/İstanbul?q=ß", "/ipa/ɐɫ", "/日本/😀.html"}
 Values   == {"plain", "a:b", "a: b", "k=v; q=0.9", "  lead", "trail  ", "", "x: y: z", "\"quoted\", <a>", "é😀 utf-8"}
 Names    == {"Host", "X-Custom", "content-type", "ACCEPT"}
 HeaderLists == {<<>>} \cup {<<H(n, v)>> : n \in Names, v \in Values}
@@ -53,6 +55,11 @@ PartBodies == {<<>>, <<97>>, <<97, 98, 99, 100>>, <<13>>, <<10>>, <<13, 10>>, <<
 C15Values ==
     {[kind |-> "resp", ser |-> sr, status |-> st[1], phrase |-> st[2], headers |-> hs, parts |-> <<Part("text/plain", 0, Len(b), Len(b), b)>>] :
         sr \in {"assoc", "method"}, st \in StatusSample, hs \in {<<>>, <<H("X-One", "1"), H("Server", "rws: x")>>}, b \in PartBodies}
+    \* the same header name several times (each line is a header of its own), also with an empty value
+    \cup {[kind |-> "resp", ser |-> sr, status |-> 200, phrase |-> "OK", headers |-> hs, parts |-> <<Part("text/plain", 0, 2, 2, <<104, 105>>)>>] :
+            sr \in {"assoc", "method"},
+            hs \in {<<H("X-Trace", "a"), H("X-Trace", "b")>>, <<H("Link", "<a>; rel=x"), H("X-Mid", "m"), H("Link", "<b>; rel=y")>>,
+                    <<H("Warning", "1"), H("Warning", ""), H("Warning", "1")>>, <<H("Set-Cookie", "a=1"), H("Set-Cookie", "b=2")>>}}
     \* media types as they occur in practice: parameters, upper case, structured suffixes
     \cup {[kind |-> "resp", ser |-> sr, status |-> 200, phrase |-> "OK", headers |-> <<>>, parts |-> <<Part(ct, 0, 2, 2, <<104, 105>>)>>] :
             sr \in {"assoc", "method"}, ct \in {"text/html; charset=UTF-8", "Text/HTML", "application/vnd.api+json; profile=AbC", "IMAGE/PNG", "text/plain;charset=us-ascii"}}
@@ -90,6 +97,11 @@ C16Values ==
 \* long bodies without any line feed (a reader that works line by line meets lines of 8 KiB, 16 KiB, 64 KiB), also ending in "--"
 C16Long == {[kind |-> "multipart", boundary |-> "--b", parts |-> <<MPart(<<CD("f")>>, [i \in 1..n |-> IF i > n - 2 THEN t ELSE 65]), MPart(<<CD("g")>>, <<122>>)>>] :
               n \in {8191, 8192, 8193, 16384, 65536}, t \in {65, 45}}
+\* header sets of every shape: without Content-Disposition, several headers, lower-case names, the same name twice
+C16Headers == {[kind |-> "multipart", boundary |-> "--b", parts |-> <<MPart(hs, <<104, 105>>), MPart(<<CD("z")>>, <<122>>)>>] :
+                 hs \in {<<H("Content-Type", "text/plain")>>, <<H("X-Only", "1")>>, <<H("content-disposition", "form-data; name=\"lc\"")>>,
+                         <<H("Content-Type", "text/plain"), CD("second")>>, <<CD("a"), H("Content-Type", "text/plain; charset=UTF-8"), H("X-A", "1"), H("X-A", "2")>>,
+                         <<H("Content-Transfer-Encoding", "binary"), H("Content-ID", "<x@y>")>>}}
 C16Corrupt == {[kind |-> "multipart_corrupt", cls |-> c] : c \in {"no_opening_boundary", "no_closing_boundary", "part_without_headers"}}
 \* the same for multipart/form-data: documents written by the library itself, then one structural element removed
 C16Structs == {[kind |-> "multipart_struct", boundary |-> bd, n |-> n, brk |-> b, at |-> a] :
@@ -118,6 +130,9 @@ C17Values ==
     \cup {[kind |-> "map", pairs |-> [i \in 1..n |-> <<"f" \o ToString(i), "v" \o ToString(i)>>]] : n \in {31, 32, 33, 64, 65}}
     \cup {[kind |-> "map", pairs |-> <<<<"long", <<"rep", u, n>>>>, <<"after", "x">>>>] :
             u \in {"a", "é", "aé", "😀", "a😀", "€"}, n \in {40, 100, 300}}
+    \* a value (and a name) ending in each of the 64 possible final bytes of a multi-byte character: U+00C0 .. U+00FF
+    \cup {[kind |-> "map", pairs |-> <<<<"k", v>>>>] : v \in {"xÀ", "xÁ", "xÂ", "xÃ", "xÄ", "xÅ", "xÆ", "xÇ", "xÈ", "xÉ", "xÊ", "xË", "xÌ", "xÍ", "xÎ", "xÏ", "xÐ", "xÑ", "xÒ", "xÓ", "xÔ", "xÕ", "xÖ", "x×", "xØ", "xÙ", "xÚ", "xÛ", "xÜ", "xÝ", "xÞ", "xß", "xà", "xá", "xâ", "xã", "xä", "xå", "xæ", "xç", "xè", "xé", "xê", "xë", "xì", "xí", "xî", "xï", "xð", "xñ", "xò", "xó", "xô", "xõ", "xö", "x÷", "xø", "xù", "xú", "xû", "xü", "xý", "xþ", "xÿ"}}
+    \cup {[kind |-> "map", pairs |-> <<<<v, "1">>>>] : v \in {"xà", "xÅ", "xÿ"}}
     \* distinct names that differ only in letter case are distinct fields
     \cup {[kind |-> "map", pairs |-> <<<<"Name", "1">>, <<"name", "2">>, <<"NAME", "3">>>>],
           [kind |-> "map", pairs |-> <<<<"id", "a">>, <<"x", "y">>, <<"ID", "b">>>>]}
@@ -134,11 +149,14 @@ IntLex == {"0", "1", "-1", "127", "-128", "255", "32767", "-32768", "65535", "21
 FloatLex == {"0.0", "-0.0", "0.1", "-0.1", "1.0", "1e-7", "1e21", "5e-324", "1.7976931348623157e308", "0.30000000000000004",
              "123456.789", "-2.5e-3", "1e100", "3.0e0", "12345678901234567.0", "-1e-7", "-5e-324", "-1e21", "-1e16"}
 StrVals == {"", "plain", "with space", "a,b", "{x}", "[1]", ":", "true", "null", "123", "é😀"}
-LeafV(name, n) == [name |-> name, n |-> n, chain |-> <<>>]
+LeafV(name, n) == [name |-> name, n |-> n, chain |-> <<>>, tags |-> NoSeq]
+LeafT(name, n, tags) == [name |-> name, n |-> n, chain |-> <<>>, tags |-> P(tags)]   \* a leaf that carries an array
 Sub(name, n) == [name |-> name, n |-> n]
-LeafC(name, n, chain) == [name |-> name, n |-> n, chain |-> chain]      \* chain: leaves nested inside this one
+LeafC(name, n, chain) == [name |-> name, n |-> n, chain |-> chain, tags |-> NoSeq]      \* chain: leaves nested inside this one
+NestCounts == {0, 1, 2, 3, 15, 16, 17, 31, 32, 33, 63, 64, 65, 100, 129}
 NoLeaf == [p |-> FALSE, v |-> LeafV("", "0")]
-InnerV(label, flag, leaf) == [label |-> label, flag |-> flag, leaf |-> leaf]
+InnerV(label, flag, leaf) == [label |-> label, flag |-> flag, leaf |-> leaf, items |-> NoSeq]
+InnerI(label, flag, leaf, items) == [label |-> label, flag |-> flag, leaf |-> leaf, items |-> P(items)]   \* a nested object that carries an array of objects
 NoObj == [p |-> FALSE, v |-> InnerV("", "false", NoLeaf)]
 Outer(sv, bv, iv, fv, obj, objs, ints, strs) ==
     [kind |-> "json_object", s |-> sv, b |-> bv, i |-> iv, f |-> fv, obj |-> obj, objs |-> objs, ints |-> ints, strs |-> strs]
@@ -166,6 +184,14 @@ C19Objects ==
     \cup {[Base EXCEPT !.objs = P(<<LeafC("e1", "1", <<Sub("s1", "-1")>>), LeafV("e2", "2"), LeafC("e3", "3", <<Sub("s3", "3"), Sub("t3 ]", "33")>>)>>)]}
     \cup {[AllAbsent EXCEPT !.objs = P(<<LeafC("only", "1", <<Sub("x", "1"), Sub("y", "2"), Sub("z", "3")>>)>>)]}
     \cup {[Base EXCEPT !.objs = P(os)] : os \in {<<>>, <<LeafV("only", "-1")>>, [k \in 1..64 |-> LeafV("k", ToString(k))]}}
+    \* containers inside containers, every kind inside every kind, each with the element counts of the count principle:
+    \* an array of objects inside the nested object, an array of integers inside a leaf (inside the nested object,
+    \* inside the array of objects, inside the array of objects of the nested object)
+    \cup {[Base EXCEPT !.obj = P(InnerI("w", "true", NoLeaf, [k \in 1..n |-> LeafV("i", ToString(k))]))] : n \in NestCounts}
+    \cup {[Base EXCEPT !.obj = P(InnerV("t", "false", P(LeafT("lt", "1", [k \in 1..n |-> ToString(k)]))))] : n \in NestCounts}
+    \cup {[Base EXCEPT !.objs = P([k \in 1..n |-> LeafT("r", ToString(k), IF k % 3 = 0 THEN <<>> ELSE <<ToString(k), "-1">>)])] : n \in NestCounts \ {0}}
+    \cup {[AllAbsent EXCEPT !.obj = P(InnerI("both", "true", P(LeafT("x", "0", <<"7">>)), [k \in 1..n |-> LeafT("j", "-" \o ToString(k), <<ToString(k)>>)]))] : n \in {1, 2, 33, 65}}
+    \cup {[Base EXCEPT !.objs = P(<<LeafT("deep", "1", <<"1", "2">>), [LeafC("c", "2", <<Sub("s", "3")>>) EXCEPT !.tags = P(<<"-5">>)]>>)]}
     \cup {[Base EXCEPT !.ints = P(xs)] : xs \in {<<>>, <<"0">>, <<"-1">>, <<"-1", "-2">>, [k \in 1..64 |-> ToString(k)]}}
     \cup {[Base EXCEPT !.strs = P(xs)] : xs \in {<<>>, <<"">>, <<"a,b", "c">>, <<"[", "]">>, [k \in 1..64 |-> "s" \o ToString(k)]}}
 \* homogeneous arrays of every element type: [kind, ty, items (lexemes)]
@@ -196,7 +222,7 @@ C19Odd == {[kind |-> "json_odd", fields |-> f] : f \in
 Cases == CASE Mode = "c19" -> C19Objects \cup C19Arrays \cup C19Odd
            [] Mode = "c14" -> C14Values \cup C14Lines
            [] Mode = "c15" -> C15Values \cup {AllStatuses} \cup C15Corrupt \cup C15StatusLines \cup C15Structs
-           [] Mode = "c16" -> C16Values \cup C16Corrupt \cup C16Extract \cup C16Structs \cup C16Long
+           [] Mode = "c16" -> C16Values \cup C16Corrupt \cup C16Extract \cup C16Structs \cup C16Long \cup C16Headers
            [] Mode = "c17" -> C17Values
 Init == case \in Cases
 Next == UNCHANGED case
